@@ -29,7 +29,7 @@ func NewParams(schema *Schema, su SimpleURL, resType string) (*Params, error) {
 	// Remove duplicates and uncessary includes
 	for i := len(incs) - 1; i >= 0; i-- {
 		if i > 0 {
-			if strings.HasPrefix(incs[i], incs[i-1]) {
+			if incs[i] == incs[i-1] || strings.HasPrefix(incs[i], incs[i-1]+".") {
 				incs = append(incs[:i-1], incs[i:]...)
 			}
 		}
